@@ -72,8 +72,9 @@ def ground_index_terms(forms):
         if z3.is_app(t):
             d = t.decl()
             if d.kind() == z3.Z3_OP_UNINTERPRETED and t.num_args() > 0:
+                opq = "!op" in d.name()  # opaque ghost definition: real-sorted arguments are triggers too
                 for i, a in enumerate(t.children()):
-                    if a.sort().kind() == z3.Z3_INT_SORT:
+                    if a.sort().kind() == z3.Z3_INT_SORT or (opq and a.sort().kind() == z3.Z3_REAL_SORT):
                         occ.setdefault((d.name(), i), {})[a.get_id()] = a
             for c in t.children():
                 visit(c, under_q)
